@@ -1,3 +1,3 @@
 From Coq Require Import ExtrOcamlBasic.
 From HV Require Import Gen.Tables Attr.Distances.
-Extraction "c13_model.ml" add_create add_values add_commit refresh set_objects get_all get_by_type get_by_depth get_by_name get_name release_remove remove_all remove_by_depth dup xml_roundtrip transform user_set_obj restrict_values restrict_arrays find_groups_by_min_distance check_grouping_matrix TYPE_NONE.
+Extraction "c13_model.ml" add_create add_values add_commit refresh set_objects get_all get_by_type get_by_depth get_by_name get_name release_remove remove_all remove_by_depth dup topology_dup xml_roundtrip transform user_set_obj restrict_values restrict_arrays find_groups_by_min_distance check_grouping_matrix TYPE_NONE.
